@@ -364,3 +364,139 @@ func Sha256(b []byte) string {
 	h := sha256.Sum256(b)
 	return "sha256:" + hex.EncodeToString(h[:])
 }
+
+// ---------------------------------------------------------------------------------------
+// independent layout writer: a spec-conforming blob that this repository's builder would
+// never emit (used for third-party TOCs).
+
+// LayoutFile is one tar entry to lay out.
+type LayoutFile struct {
+	Hdr     *tar.Header
+	Content []byte
+}
+
+// LayoutOpts controls the layout.
+type LayoutOpts struct {
+	Kind      string // gzip | zstd | external
+	ChunkSize int
+	// ShareStreams keeps consecutive small files (and their chunks) in one compression stream, addressing
+	// them by innerOffset, until the stream holds at least this many compressed-input bytes (0 = never share).
+	ShareStreams int
+}
+
+type memberSink struct {
+	kind    string
+	cur     bytes.Buffer
+	blob    []byte
+	curOff  int64 // offset of the member being filled
+	written int64 // uncompressed bytes written into the current member
+}
+
+func (s *memberSink) Write(p []byte) (int, error) {
+	s.cur.Write(p)
+	s.written += int64(len(p))
+	return len(p), nil
+}
+
+// cut closes the current member (if it has data) and starts a new one; returns the offset of the new member.
+func (s *memberSink) cut() int64 {
+	if s.cur.Len() > 0 {
+		if s.kind == "zstd" {
+			s.blob = append(s.blob, ZstdFrame(s.cur.Bytes())...)
+		} else {
+			s.blob = append(s.blob, GzipMember(s.cur.Bytes())...)
+		}
+		s.cur.Reset()
+	}
+	s.curOff = int64(len(s.blob))
+	s.written = 0
+	return s.curOff
+}
+
+// Layout writes the tar stream member by member and returns the payload (without TOC/footer) and the
+// chunk-level TOC entries (reg/chunk entries carry offset, innerOffset, chunkOffset, chunkSize, digests;
+// all other fields are filled from the header).  The caller may rewrite names / drop entries before wrapping.
+func Layout(files []LayoutFile, o LayoutOpts) (payload []byte, entries []*Entry, err error) {
+	if o.ChunkSize <= 0 {
+		o.ChunkSize = 4 << 20
+	}
+	sink := &memberSink{kind: o.Kind}
+	tw := tar.NewWriter(sink)
+	for _, f := range files {
+		h := *f.Hdr
+		if err := tw.WriteHeader(&h); err != nil {
+			return nil, nil, err
+		}
+		e := &Entry{Name: h.Name, Mode: h.Mode, UID: h.Uid, GID: h.Gid, Uname: h.Uname, Gname: h.Gname}
+		if !h.ModTime.IsZero() && h.ModTime.Unix() != 0 {
+			e.ModTime = h.ModTime.UTC().Round(1e9).Format("2006-01-02T15:04:05Z07:00")
+		}
+		for k, v := range h.PAXRecords {
+			if len(k) > 13 && k[:13] == "SCHILY.xattr." {
+				if e.Xattrs == nil {
+					e.Xattrs = map[string][]byte{}
+				}
+				e.Xattrs[k[13:]] = []byte(v)
+			}
+		}
+		switch h.Typeflag {
+		case tar.TypeDir:
+			e.Type = "dir"
+		case tar.TypeSymlink:
+			e.Type, e.LinkName = "symlink", h.Linkname
+		case tar.TypeLink:
+			e.Type, e.LinkName = "hardlink", h.Linkname
+		case tar.TypeChar:
+			e.Type, e.DevMajor, e.DevMinor = "char", int(h.Devmajor), int(h.Devminor)
+		case tar.TypeBlock:
+			e.Type, e.DevMajor, e.DevMinor = "block", int(h.Devmajor), int(h.Devminor)
+		case tar.TypeFifo:
+			e.Type = "fifo"
+		case tar.TypeReg:
+			e.Type, e.Size = "reg", h.Size
+			e.Digest = Sha256(f.Content)
+		default:
+			return nil, nil, fmt.Errorf("layout: unsupported type %q", h.Typeflag)
+		}
+		entries = append(entries, e)
+		if h.Typeflag != tar.TypeReg || h.Size == 0 {
+			continue
+		}
+		cur := e
+		for off := 0; off < len(f.Content); off += o.ChunkSize {
+			end := off + o.ChunkSize
+			if end > len(f.Content) {
+				end = len(f.Content)
+			}
+			if off > 0 {
+				cur = &Entry{Name: h.Name, Type: "chunk"}
+				entries = append(entries, cur)
+			}
+			if o.ShareStreams > 0 && sink.written > 0 && sink.written < int64(o.ShareStreams) {
+				cur.Offset = sink.curOff
+				cur.InnerOffset = sink.written
+			} else {
+				cur.Offset = sink.cut()
+			}
+			cur.ChunkOffset = int64(off)
+			if end < len(f.Content) || off > 0 {
+				cur.ChunkSize = int64(end - off)
+			}
+			if end == len(f.Content) && off > 0 {
+				cur.ChunkSize = 0 // last chunk: size implied
+			}
+			cur.ChunkDigest = Sha256(f.Content[off:end])
+			if _, err := tw.Write(f.Content[off:end]); err != nil {
+				return nil, nil, err
+			}
+		}
+		if err := tw.Flush(); err != nil {
+			return nil, nil, err
+		}
+	}
+	if err := tw.Close(); err != nil {
+		return nil, nil, err
+	}
+	sink.cut()
+	return sink.blob, entries, nil
+}
